@@ -62,6 +62,11 @@ C18)
   (cd $REPO && go build -o "$W/test_gen" ./cmd/test_gen) || { echo "harness error: test_gen does not build" >&2; exit 3; }
   EXTRA_ARGS="-bin $W/test_gen"
   ;;
+C17)
+  build "$W/bin" ./cmd/$LC || exit 3
+  (cd $REPO && go build -o "$W/goose" ./cmd/goose) || { echo "harness error: goose does not build" >&2; exit 3; }
+  EXTRA_ARGS="-bin $W/goose"
+  ;;
 *) echo "unknown property $ID" >&2; exit 3;;
 esac
 
